@@ -1819,6 +1819,9 @@ where
             }
         } else if self.status == ConnectionStatus::Connected {
             // process auto applying TopicAlias if the option is enabled
+            // The rewritten packet must still respect the peer's Maximum Packet Size
+            // (the Topic Alias property adds three bytes); otherwise send it as given.
+            let max_size = self.maximum_packet_size_send as usize;
             if self.auto_map_topic_alias_send {
                 if let Some(ref mut topic_alias_send) = self.topic_alias_send {
                     if let Some(found_ta) = topic_alias_send.find_by_topic(packet.topic_name()) {
@@ -1827,11 +1830,17 @@ where
                             packet.topic_name(),
                             found_ta
                         );
-                        packet = packet.remove_topic_add_topic_alias(found_ta);
+                        let replaced = packet.clone().remove_topic_add_topic_alias(found_ta);
+                        if replaced.size() <= max_size {
+                            packet = replaced;
+                        }
                     } else {
                         let lru_ta = topic_alias_send.get_lru_alias();
-                        topic_alias_send.insert_or_update(packet.topic_name(), lru_ta);
-                        packet = packet.add_topic_alias(lru_ta);
+                        let mapped = packet.clone().add_topic_alias(lru_ta);
+                        if mapped.size() <= max_size {
+                            topic_alias_send.insert_or_update(packet.topic_name(), lru_ta);
+                            packet = mapped;
+                        }
                     }
                 }
             } else if self.auto_replace_topic_alias_send {
@@ -1842,7 +1851,10 @@ where
                             packet.topic_name(),
                             found_ta
                         );
-                        packet = packet.remove_topic_add_topic_alias(found_ta);
+                        let replaced = packet.clone().remove_topic_add_topic_alias(found_ta);
+                        if replaced.size() <= max_size {
+                            packet = replaced;
+                        }
                     }
                 }
             }
